@@ -22,7 +22,6 @@ fn resolved(raw: &str) -> String {
     tough::TargetName::new(raw.to_string()).unwrap().resolved().to_string()
 }
 
-#[allow(dead_code)]
 fn dump(mem: &Mem, dir: &Path) {
     for (path, resp) in mem.files.lock().unwrap().iter() {
         if let Resp::Stream(chunks) = resp {
@@ -33,6 +32,10 @@ fn dump(mem: &Mem, dir: &Path) {
             std::fs::write(p, bytes).unwrap();
         }
     }
+}
+
+fn tuftool() -> std::path::PathBuf {
+    std::path::PathBuf::from(std::env::var("TUFTOOL").unwrap_or_else(|_| "/repo/target/debug/tuftool".into()))
 }
 
 /// every file below `dir`, relative path -> content
@@ -130,7 +133,7 @@ async fn main() {
     let n = if thorough { 4000 } else { 250 };
     for i in 0..n {
         // two case slots per scenario (the second one: read-back of names that need URL escaping)
-        if !out.only.map_or(true, |o| o == out.n + 1 || o == out.n + 2) { out.skip(); out.skip(); continue; }
+        if !out.wants_any_of_next(3) { out.skip(); out.skip(); out.skip(); continue; }
         let mut r = Rng::new(args.seed, i);
         let mut tn: Vec<&str> = TARGET_NAMES.to_vec();
         r.shuffle(&mut tn);
@@ -197,14 +200,38 @@ async fn main() {
             "ntargets": k, "root_version": rv, "names": names, "role_names": role_names});
         let repo = match loaded {
             Ok(r) => r,
-            Err(e) => { out.case_nt("source-does-not-load", input_base, json!({"load": err_tag(&e)}), false); out.skip(); continue; }
+            Err(e) => { out.case_nt("source-does-not-load", input_base, json!({"load": err_tag(&e)}), false); out.skip(); out.skip(); continue; }
         };
         // cache into <sandbox>/c/meta and <sandbox>/c/tgt; anything else appearing in the sandbox is an escape
-        let sandbox = top_dir.path().join("sandbox");
+        let subset_names: Option<Vec<String>> = subset.as_ref().map(|s| s.iter().map(|i| names[*i].clone()).collect());
+        let run_cli = thorough || i % 3 == 0;
+        let mut imps: Vec<Value> = Vec::new();
+        let mut lib_ok = false;
+        for leg in 0..2 {
+        if leg == 1 && !run_cli { break; }
+        let sandbox = top_dir.path().join(if leg == 0 { "sandbox" } else { "sandbox-cli" });
         let (meta_out, tgt_out) = (sandbox.join("c").join("meta"), sandbox.join("c").join("tgt"));
         std::fs::create_dir_all(sandbox.join("c")).unwrap();
-        let subset_names: Option<Vec<String>> = subset.as_ref().map(|s| s.iter().map(|i| names[*i].clone()).collect());
-        let res = repo.cache(&meta_out, &tgt_out, subset_names.as_deref(), chain).await;
+        // leg 0: the library; leg 1: `tuftool clone` on the source written to a directory (always with the root chain)
+        let chain = if leg == 0 { chain } else { true };
+        let res: Result<(), String> = if leg == 0 {
+            repo.cache(&meta_out, &tgt_out, subset_names.as_deref(), chain).await.map_err(|e| e.to_string())
+        } else {
+            let src = top_dir.path().join("src");
+            dump(&mem, &src);
+            let root_file = top_dir.path().join("shipped-root.json");
+            std::fs::write(&root_file, &shipped_bytes).unwrap();
+            let mut cmd = std::process::Command::new(tuftool());
+            cmd.arg("clone").arg("--root").arg(&root_file)
+                .arg("--metadata-url").arg(murl(&src.join("m")).as_str()).arg("--targets-url").arg(murl(&src.join("t")).as_str())
+                .arg("--metadata-dir").arg(&meta_out).arg("--targets-dir").arg(&tgt_out);
+            for n in subset_names.iter().flatten() { cmd.arg("-n").arg(n); }
+            match cmd.output() {
+                Ok(o) if o.status.success() => Ok(()),
+                Ok(o) => Err(String::from_utf8_lossy(&o.stderr).to_string()),
+                Err(e) => Err(format!("tuftool could not be run: {e}")),
+            }
+        };
         let meta_files = tree(&meta_out);
         let tgt_files = tree(&tgt_out);
         let everything = tree(&sandbox);
@@ -259,9 +286,13 @@ async fn main() {
             Err(e) => { reload_obs = json!({"res": err_tag(e)}); }
         }
         let versions = json!([repo.root().signed.version.get(), repo.timestamp().signed.version.get(), repo.snapshot().signed.version.get(), repo.targets().signed.version.get()]);
-        let imp = json!({"load": "ok", "versions": versions, "cache": match &res { Ok(()) => "ok".to_string(), Err(e) => format!("err:{}", e.to_string().chars().take(60).collect::<String>()) },
+        if leg == 0 { lib_ok = res.is_ok() && reload.is_ok(); }
+        let imp = json!({"load": "ok", "versions": versions, "cache": match &res { Ok(()) => "ok".to_string(), Err(e) => format!("err:{}", e.chars().take(60).collect::<String>()) },
             "meta_files": meta_labels, "meta_identical": meta_identical, "meta_differing": differing, "targets": tgt_state, "unexpected_target_files": unexpected, "escaped": escaped,
             "reload": reload_obs, "reads": reads});
+        imps.push(imp);
+        }
+        let imp = imps[0].clone();
         // names that `Url::join` has to escape: the cached copy is on disk under the plain name, the
         // file:// transport looks for the escaped one (reported as a case of its own)
         let needs_escape: Vec<bool> = names.iter().map(|n| { let res = resolved(n); tbase.join(&res).map(|u| u.path() != format!("/t/{res}")).unwrap_or(true) }).collect();
@@ -269,14 +300,24 @@ async fn main() {
             if subset.is_some() { "-subset" } else { "-all" }, if corrupted.is_some() { "-corrupted" } else { "" });
         let mut input_base = input_base;
         input_base["needs_escape"] = json!(needs_escape);
-        if res.is_ok() && reload.is_ok() && needs_escape.iter().any(|b| *b) {
+        if lib_ok && needs_escape.iter().any(|b| *b) {
             let mut i2 = input_base.clone();
             i2["kind"] = json!("readback-escaped-names");
             out.case_nt("readback-urlnames", i2, imp.clone(), true);
         } else {
             out.skip();
         }
-        out.case_nt(&class, input_base, imp, !roles.is_empty() || corrupted.is_some());
+        out.case_nt(&class, input_base.clone(), imp, !roles.is_empty() || corrupted.is_some());
+        // the command line leg: chain always copied; no names given = all targets
+        if imps.len() == 2 {
+            let mut i3 = input_base;
+            i3["chain"] = json!(true);
+            if subset.as_ref().map_or(false, |s| s.is_empty()) { i3["subset"] = Value::Null; }
+            i3["via"] = json!("tuftool clone");
+            out.case_nt(&format!("{class}-cli"), i3, imps[1].clone(), true);
+        } else {
+            out.skip();
+        }
     }
     out.finish();
 }
